@@ -141,24 +141,39 @@ func shouldUpdateAlertStateToFiring(alertDetails *alertutils.AlertDetails, curre
 		return true
 	}
 
-	alertHistoryList, err := databaseObj.GetAlertHistoryByAlertID(&alertutils.AlertHistoryQueryParams{
-		AlertId:   alertDetails.AlertId,
-		Limit:     intervalCount - 1,
-		SortOrder: alertutils.DESC,
-	})
-	if err != nil {
-		log.Errorf("ALERTSERVICE: shouldUpdateAlertStateToFiring: Error getting AlertHistory. Alert=%+v & err=%+v.", alertDetails.AlertName, err)
-		return false
-	}
-
-	if len(alertHistoryList) < int(intervalCount-1) {
-		return false
-	}
-
-	for _, alertHistory := range alertHistoryList {
-		if !alertutils.IsAlertStatePendingOrFiring(alertHistory.AlertState) {
+	// Only evaluation rows count for the window: "Config Modified" rows written by
+	// ProcessUpdateAlertRequest (UserName != SystemGeneratedAlert) carry no evaluation outcome.
+	needed := int(intervalCount - 1)
+	seen := 0
+	offset := uint64(0)
+	const pageSize = 50
+	for seen < needed {
+		alertHistoryList, err := databaseObj.GetAlertHistoryByAlertID(&alertutils.AlertHistoryQueryParams{
+			AlertId:   alertDetails.AlertId,
+			Limit:     pageSize,
+			Offset:    offset,
+			SortOrder: alertutils.DESC,
+		})
+		if err != nil {
+			log.Errorf("ALERTSERVICE: shouldUpdateAlertStateToFiring: Error getting AlertHistory. Alert=%+v & err=%+v.", alertDetails.AlertName, err)
 			return false
 		}
+		if len(alertHistoryList) == 0 {
+			return false
+		}
+		for _, alertHistory := range alertHistoryList {
+			if alertHistory.UserName != alertutils.SystemGeneratedAlert {
+				continue
+			}
+			if !alertutils.IsAlertStatePendingOrFiring(alertHistory.AlertState) {
+				return false
+			}
+			seen++
+			if seen == needed {
+				break
+			}
+		}
+		offset += uint64(len(alertHistoryList))
 	}
 
 	return true
